@@ -236,4 +236,21 @@ def params_used(repo: Repo) -> RuleRun:
 
 params_used.rule_id = "C17.PARAMS-USED"
 
-RULES = [purity, position_writers, link_algebra, affine_kinds, mirror_matrix, trig_domain, params_used]
+def owns_geometry(repo: Repo) -> RuleRun:
+    """Clamps stay on THEIR manifold: the constructors keep private copies of the coordinates that define it."""
+    from ..alias import escaping_view_rule
+
+    return escaping_view_rule(repo, PROP, "C17.OWNS-GEOMETRY", ('optimize.',))
+
+
+owns_geometry.rule_id = "C17.OWNS-GEOMETRY"
+
+def angle_dimension(repo: Repo) -> RuleRun:
+    from ..dims import angle_dimension_rule
+
+    return angle_dimension_rule(repo, PROP, "C17.ANGLE-DIMENSION")
+
+
+angle_dimension.rule_id = "C17.ANGLE-DIMENSION"
+
+RULES = [purity, position_writers, link_algebra, affine_kinds, mirror_matrix, trig_domain, params_used, owns_geometry, angle_dimension]
